@@ -43,7 +43,7 @@ def _sig(rj):
     narrow = bool(ev.get("o", {}).get("narrow", False))
     rescaled = bool(st.get("median")) and st.get("scheme", 1) in (1, 3)
     return {"action": ev.get("e"), "invariant": rj.invariant or "step", "kind": st.get("kind", ""), "fam": st.get("fam", ""),
-            "narrow": narrow, "rescaled_median": rescaled, "median_rescale_only": bool(ev.get("o", {}).get("mro", False)), "scheme": st.get("scheme", ""),
+            "narrow": narrow, "rescaled_median": rescaled, "merged_into_invariant": bool(ev.get("o", {}).get("mii", False)), "median_rescale_only": bool(ev.get("o", {}).get("mro", False)), "scheme": st.get("scheme", ""),
             "median": st.get("median", ""), "outcome": ev.get("rk", ""), "emptyclass": empty,
             "compound": st.get("kind", "") in ("invariant", "mixture"), "after_refusal": refused,
             "refused_calls": "+".join(sorted(refused_calls)), "stale_fields": stale}
